@@ -55,7 +55,9 @@ DropMalformed(t, s) == IF s # <<>> /\ ~WellFormed(t, Head(s)) THEN DropMalformed
 TQuiescent == Step("quiescent") /\ UNCHANGED <<avars, scen, poisoned, garbage>> /\
    IF Fld(E, "pending", "none") = "recv" /\ stype # "REQ"
       /\ \E c \in Live(Owing) : DropMalformed(stype, Pend(c)) # <<>>
-   THEN Flag("C06/parked-with-message-available") ELSE NoFlag
+   THEN Report(scen, "C06/parked-with-message-available", l) /\ Report(scen, "C05/message-never-delivered", l)
+        /\ viol' = viol \cup {"C06/parked-with-message-available", "C05/message-never-delivered"}
+   ELSE NoFlag
 
 TPanic == Step("panic") /\ UNCHANGED <<avars, scen, poisoned, garbage>> /\ Flag("C03/panic")
 THarness == Step("harness_error") /\ UNCHANGED <<avars, scen, poisoned, garbage>> /\ Flag("harness/script-error")
